@@ -78,7 +78,7 @@ def linear1d(ctx, rng, idx):
     """a*x+b on arbitrary monotone faces, non-periodic ends: exact at interior faces for every k-scheme and limiter"""
     rname0 = gen.ALL_RECONS[idx % len(gen.ALL_RECONS)]
     num, rname = gen.recon(rname0, rng)
-    mesh, mdesc = gen.mesh1d(rng, nmin=3, nmax=24)
+    mesh, mdesc = gen.mesh1d(rng, nmin=3, nmax=24, big=0.03)
     a = float(rng.choice([1.0, -1.0, 10 ** rng.uniform(-3, 3) * rng.choice([-1, 1])]))
     b = float(rng.uniform(-2, 2) * abs(a) * mesh.length)
     model = conv.model(float(rng.choice([1.0, -1.0])))
